@@ -249,6 +249,19 @@ func mkInsertTooLarge(m *mModel, table string) (stmt, bool) {
 		apply: func(*mModel, int) {}}, found
 }
 
+// mkUpdateTooLarge is an UPDATE of every row that would make each row exceed the 400-byte limit: it has to be
+// refused and to leave every row as it was.
+func mkUpdateTooLarge(m *mModel, table string) (stmt, bool) {
+	t := m.Tables[table]
+	for i, c := range t.Cols {
+		if i > 0 && c.Type == "varchar" {
+			return stmt{SQL: fmt.Sprintf("UPDATE %s SET %s = '%s'", table, c.Name, strings.Repeat("U", 430)), Kind: "update-refused", Table: table, MustFail: true,
+				apply: func(*mModel, int) {}}, true
+		}
+	}
+	return stmt{}, false
+}
+
 // mkInsertNull inserts two rows naming only the sequence column, so every
 // other column of those rows is NULL (the grammar has no NULL literal).
 func mkInsertNull(m *mModel, table string) stmt {
@@ -477,7 +490,7 @@ func (w *world) do(s stmt) bool {
 			return false
 		}
 		if err == nil {
-			w.c.Fail("invalid-statement-accepted", "%s was accepted although its row exceeds the size limit", clip(s.SQL, 100))
+			w.c.Fail("invalid-statement-accepted", "%s was accepted although its rows exceed the size limit", clip(s.SQL, 100))
 			return false
 		}
 		return true
@@ -966,6 +979,9 @@ func (w *world) alphabet(o alphaOpt) []stmt {
 		}
 		if o.FailingInsert {
 			if st, ok := mkInsertTooLarge(m, tn); ok {
+				out = append(out, st)
+			}
+			if st, ok := mkUpdateTooLarge(m, tn); ok && len(t.Rows) > 0 {
 				out = append(out, st)
 			}
 		}
